@@ -1319,6 +1319,9 @@ def _gather(self: Engine, st: State, args, kwargs, fn) -> List[Res]:
     if not hasattr(self, "assumed_used"):
         self.assumed_used = set()
     self.assumed_used.add("A-ASYNCIO")
+    if kwargs:
+        # return_exceptions=True changes what gather does with a failing awaitable: not modelled
+        raise Unsupported(f"asyncio.gather with keyword arguments {sorted(kwargs)}")
     return [(st, CoroV(None, list(args), {}, kind="gather"))]
 
 
